@@ -95,7 +95,16 @@ def run(R):
     for _, f in cs:
         backend_tags(f, tags)
     R.cov['backend_histogram'] = tags
-    run_mc(R, 'CTLS', cs)
+    run_mc(R, 'CTLS', cs, alias_every=3)
+    # structures with 4-6 states and few distinct label sets, ALL installed with shared label-set objects, and formulas with nested
+    # quantifiers: the fresh-atom labelling of the working clone must not leak from one state to the states that shared its set
+    rng = R.rng
+    extra = []
+    for _ in range(6000 if R.thorough else 500):
+        kd = rand_kripke(rng, rng.randint(4, 6), aps=('p',) if rng.random() < 0.5 else ('p', 'q'))
+        f = rand_ctls_state(rng, rng.randint(2, 3))
+        extra.append((kd, f))
+    run_mc(R, 'CTLS', extra, label='_shared_label_sets', alias_every=1)
 
 
 def replay(R, data):
